@@ -3787,4 +3787,355 @@ theorem plot_errevery_match' (n : Nat) :
     errEveryOf true none n = max (n * Coba.Generated.C18.errEveryFactor.1 / Coba.Generated.C18.errEveryFactor.2) 1 := by
   simp [errEveryOf, Coba.Generated.C18.errEveryFactor]
 
+
+/-! ## Part 13: Python's `sorted()` on parameter values -/
+
+/-- `a < b` evaluates without `TypeError` exactly when both values are of one class other than `None` -/
+theorem pyLt_ok_iff (a b : PyVal) : (∃ x, pyLt a b = .ok x) ↔ (pyClass a = pyClass b ∧ pyClass a ≠ .none) := by
+  cases a <;> cases b <;> simp [pyLt, pyClass]
+
+theorem pyLt_error (a b : PyVal) (e : Err) (h : pyLt a b = .error e) : e = .typeError := by
+  cases a <;> cases b <;> simp [pyLt] at h <;> exact h.symm
+
+def OneClass (c : PyClass) (l : List PyVal) : Prop := ∀ v ∈ l, pyClass v = c
+
+theorem pyLt_ok_of_class {c : PyClass} (hc : c ≠ .none) {a b : PyVal} (ha : pyClass a = c) (hb : pyClass b = c) :
+    ∃ x, pyLt a b = .ok x := (pyLt_ok_iff a b).mpr ⟨by rw [ha, hb], by rw [ha]; exact hc⟩
+
+theorem pyBsearch_ok {c : PyClass} (hc : c ≠ .none) (v : PyVal) (hv : pyClass v = c) (pre : List PyVal) (hp : OneClass c pre) :
+    ∀ (f l r : Nat), l ≤ pre.length → r ≤ pre.length → ∃ k, pyBsearch v pre f l r = .ok k ∧ k ≤ pre.length := by
+  intro f
+  induction f with
+  | zero => intro l r hl hr; exact ⟨l, rfl, hl⟩
+  | succ f ih =>
+    intro l r hl hr
+    simp only [pyBsearch]
+    split
+    · rename_i hlr
+      have hlt : l + (r - l) / 2 < pre.length := by omega
+      rw [List.getElem?_eq_getElem hlt]
+      simp only
+      obtain ⟨x, hx⟩ := pyLt_ok_of_class hc hv (hp _ (List.getElem_mem hlt))
+      rw [hx]
+      cases x
+      · exact ih _ _ (by omega) hr
+      · exact ih _ _ hl (by omega)
+    · exact ⟨l, rfl, hl⟩
+
+theorem oneClass_insert {c : PyClass} {pre : List PyVal} {v : PyVal} (hp : OneClass c pre) (hv : pyClass v = c) (k : Nat) :
+    OneClass c (pre.take k ++ v :: pre.drop k) := by
+  intro w hw
+  simp only [List.mem_append, List.mem_cons] at hw
+  rcases hw with hw | rfl | hw
+  · exact hp w (List.mem_of_mem_take hw)
+  · exact hv
+  · exact hp w (List.mem_of_mem_drop hw)
+
+theorem pyBinSort_ok {c : PyClass} (hc : c ≠ .none) (rest : List PyVal) : ∀ (pre : List PyVal), OneClass c pre → OneClass c rest →
+    ∃ out, pyBinSort pre rest = .ok out ∧ OneClass c out ∧ out.length = pre.length + rest.length := by
+  induction rest with
+  | nil => intro pre hp _; exact ⟨pre, rfl, hp, by simp⟩
+  | cons v rest ih =>
+    intro pre hp hr
+    have hv : pyClass v = c := hr v (by simp)
+    obtain ⟨k, hk, hkl⟩ := pyBsearch_ok hc v hv pre hp pre.length 0 pre.length (by omega) (le_refl _)
+    simp only [pyBinSort, hk]
+    obtain ⟨out, ho, hoc, hol⟩ := ih _ (oneClass_insert hp hv k) (fun w hw => hr w (by simp [hw]))
+    refine ⟨out, ho, hoc, ?_⟩
+    rw [hol]
+    simp only [List.length_append, List.length_take, List.length_cons, List.length_drop]
+    omega
+
+theorem pyRunAsc_ok {c : PyClass} (hc : c ≠ .none) (vs : List PyVal) : ∀ (last : PyVal), pyClass last = c → OneClass c vs →
+    ∃ r rest, pyRunAsc last vs = .ok (r, rest) ∧ OneClass c r ∧ OneClass c rest ∧ r.length + rest.length = vs.length := by
+  induction vs with
+  | nil => intro last _ _; exact ⟨[], [], rfl, by simp [OneClass], by simp [OneClass], rfl⟩
+  | cons v vs ih =>
+    intro last hl hvs
+    have hv : pyClass v = c := hvs v (by simp)
+    obtain ⟨x, hx⟩ := pyLt_ok_of_class hc hv hl
+    simp only [pyRunAsc, hx]
+    cases x
+    · obtain ⟨r, rest, h, h1, h2, h3⟩ := ih v hv (fun w hw => hvs w (by simp [hw]))
+      simp only [h]
+      refine ⟨v :: r, rest, rfl, ?_, h2, by simp; omega⟩
+      intro w hw
+      rcases List.mem_cons.mp hw with rfl | hw
+      · exact hv
+      · exact h1 w hw
+    · exact ⟨[], v :: vs, rfl, by simp [OneClass], hvs, by simp⟩
+
+theorem pyRunDesc_ok {c : PyClass} (hc : c ≠ .none) (vs : List PyVal) : ∀ (last : PyVal), pyClass last = c → OneClass c vs →
+    ∃ r rest, pyRunDesc last vs = .ok (r, rest) ∧ OneClass c r ∧ OneClass c rest ∧ r.length + rest.length = vs.length := by
+  induction vs with
+  | nil => intro last _ _; exact ⟨[], [], rfl, by simp [OneClass], by simp [OneClass], rfl⟩
+  | cons v vs ih =>
+    intro last hl hvs
+    have hv : pyClass v = c := hvs v (by simp)
+    obtain ⟨x, hx⟩ := pyLt_ok_of_class hc hv hl
+    simp only [pyRunDesc, hx]
+    cases x
+    · exact ⟨[], v :: vs, rfl, by simp [OneClass], hvs, by simp⟩
+    · obtain ⟨r, rest, h, h1, h2, h3⟩ := ih v hv (fun w hw => hvs w (by simp [hw]))
+      simp only [h]
+      refine ⟨v :: r, rest, rfl, ?_, h2, by simp; omega⟩
+      intro w hw
+      rcases List.mem_cons.mp hw with rfl | hw
+      · exact hv
+      · exact h1 w hw
+
+/-- values of one class other than `None`: `sorted` does not raise and returns as many values, all of that class -/
+theorem pySorted_ok_of_oneClass {c : PyClass} (hc : c ≠ .none) (l : List PyVal) (h : OneClass c l) :
+    ∃ out, pySorted l = .ok out ∧ OneClass c out ∧ out.length = l.length := by
+  match l, h with
+  | [], _ => exact ⟨[], rfl, by simp [OneClass], rfl⟩
+  | [a], h => exact ⟨[a], rfl, h, rfl⟩
+  | a :: b :: rest, h =>
+    have ha : pyClass a = c := h a (by simp)
+    have hb : pyClass b = c := h b (by simp)
+    have hr : OneClass c rest := fun w hw => h w (by simp [hw])
+    obtain ⟨x, hx⟩ := pyLt_ok_of_class hc hb ha
+    simp only [pySorted, hx]
+    cases x
+    · obtain ⟨r, rest', h0, h1, h2, h3⟩ := pyRunAsc_ok hc rest b hb hr
+      simp only [h0]
+      have hpre : OneClass c (a :: b :: r) := by
+        intro w hw
+        simp only [List.mem_cons] at hw
+        rcases hw with rfl | rfl | hw
+        · exact ha
+        · exact hb
+        · exact h1 w hw
+      obtain ⟨out, ho, hoc, hol⟩ := pyBinSort_ok hc rest' _ hpre h2
+      exact ⟨out, ho, hoc, by rw [hol]; simp; omega⟩
+    · obtain ⟨r, rest', h0, h1, h2, h3⟩ := pyRunDesc_ok hc rest b hb hr
+      simp only [h0]
+      have hpre : OneClass c (a :: b :: r).reverse := by
+        intro w hw
+        simp only [List.mem_reverse, List.mem_cons] at hw
+        rcases hw with rfl | rfl | hw
+        · exact ha
+        · exact hb
+        · exact h1 w hw
+      obtain ⟨out, ho, hoc, hol⟩ := pyBinSort_ok hc rest' _ hpre h2
+      exact ⟨out, ho, hoc, by rw [hol]; simp; omega⟩
+
+/-! converse: a successful `sorted` has compared every value with another one -/
+
+theorem pyBsearch_first {v : PyVal} {pre : List PyVal} (hne : pre ≠ []) {k : Nat}
+    (h : pyBsearch v pre pre.length 0 pre.length = .ok k) : ∃ q ∈ pre, ∃ x, pyLt v q = .ok x := by
+  have hpos : 0 < pre.length := List.length_pos_iff.mpr hne
+  obtain ⟨f, hf⟩ : ∃ f, pre.length = f + 1 := ⟨pre.length - 1, by omega⟩
+  have hlt : 0 + (pre.length - 0) / 2 < pre.length := by omega
+  rw [show pyBsearch v pre pre.length 0 pre.length = pyBsearch v pre (f + 1) 0 pre.length by rw [← hf]] at h
+  simp only [pyBsearch, hpos, if_true, List.getElem?_eq_getElem hlt] at h
+  refine ⟨pre[0 + (pre.length - 0) / 2], List.getElem_mem hlt, ?_⟩
+  cases hq : pyLt v pre[0 + (pre.length - 0) / 2] with
+  | error e => rw [hq] at h; exact absurd h (by simp)
+  | ok x => exact ⟨x, rfl⟩
+
+theorem pyBinSort_class {c : PyClass} (rest : List PyVal) : ∀ (pre : List PyVal), pre ≠ [] → OneClass c pre →
+    (∃ out, pyBinSort pre rest = .ok out) → OneClass c rest ∧ (rest ≠ [] → c ≠ .none) := by
+  induction rest with
+  | nil => intro pre _ _ _; exact ⟨by simp [OneClass], fun h => absurd rfl h⟩
+  | cons v rest ih =>
+    intro pre hne hp ⟨out, ho⟩
+    simp only [pyBinSort] at ho
+    cases hk : pyBsearch v pre pre.length 0 pre.length with
+    | error e => rw [hk] at ho; exact absurd ho (by simp)
+    | ok k =>
+      rw [hk] at ho
+      obtain ⟨q, hq, x, hx⟩ := pyBsearch_first hne hk
+      obtain ⟨h1, h2⟩ := (pyLt_ok_iff v q).mp ⟨x, hx⟩
+      have hv : pyClass v = c := by rw [h1]; exact hp q hq
+      have := ih _ (by simp) (oneClass_insert hp hv k) ⟨out, ho⟩
+      refine ⟨?_, fun _ => by rw [← hv]; exact h2⟩
+      intro w hw
+      rcases List.mem_cons.mp hw with rfl | hw
+      · exact hv
+      · exact this.1 w hw
+
+theorem pyRunAsc_class (vs : List PyVal) : ∀ (last : PyVal) (r rest : List PyVal), pyRunAsc last vs = .ok (r, rest) →
+    OneClass (pyClass last) r ∧ vs = r ++ rest := by
+  induction vs with
+  | nil => intro last r rest h; simp [pyRunAsc] at h; obtain ⟨rfl, rfl⟩ := h; simp [OneClass]
+  | cons v vs ih =>
+    intro last r rest h
+    simp only [pyRunAsc] at h
+    cases hx : pyLt v last with
+    | error e => rw [hx] at h; exact absurd h (by simp)
+    | ok x =>
+      rw [hx] at h
+      have hc := ((pyLt_ok_iff v last).mp ⟨x, hx⟩).1
+      cases x
+      · simp only at h
+        cases hr : pyRunAsc v vs with
+        | error e => rw [hr] at h; exact absurd h (by simp)
+        | ok p =>
+          obtain ⟨r', rest'⟩ := p
+          rw [hr] at h
+          simp only [Except.ok.injEq, Prod.mk.injEq] at h
+          obtain ⟨rfl, rfl⟩ := h
+          obtain ⟨h1, h2⟩ := ih v r' rest' hr
+          refine ⟨?_, by rw [h2]; rfl⟩
+          intro w hw
+          rcases List.mem_cons.mp hw with rfl | hw
+          · exact hc
+          · rw [← hc]; exact h1 w hw
+      · simp only [Except.ok.injEq, Prod.mk.injEq] at h
+        obtain ⟨rfl, rfl⟩ := h
+        exact ⟨by simp [OneClass], rfl⟩
+
+theorem pyRunDesc_class (vs : List PyVal) : ∀ (last : PyVal) (r rest : List PyVal), pyRunDesc last vs = .ok (r, rest) →
+    OneClass (pyClass last) r ∧ vs = r ++ rest := by
+  induction vs with
+  | nil => intro last r rest h; simp [pyRunDesc] at h; obtain ⟨rfl, rfl⟩ := h; simp [OneClass]
+  | cons v vs ih =>
+    intro last r rest h
+    simp only [pyRunDesc] at h
+    cases hx : pyLt v last with
+    | error e => rw [hx] at h; exact absurd h (by simp)
+    | ok x =>
+      rw [hx] at h
+      have hc := ((pyLt_ok_iff v last).mp ⟨x, hx⟩).1
+      cases x
+      · simp only [Except.ok.injEq, Prod.mk.injEq] at h
+        obtain ⟨rfl, rfl⟩ := h
+        exact ⟨by simp [OneClass], rfl⟩
+      · simp only at h
+        cases hr : pyRunDesc v vs with
+        | error e => rw [hr] at h; exact absurd h (by simp)
+        | ok p =>
+          obtain ⟨r', rest'⟩ := p
+          rw [hr] at h
+          simp only [Except.ok.injEq, Prod.mk.injEq] at h
+          obtain ⟨rfl, rfl⟩ := h
+          obtain ⟨h1, h2⟩ := ih v r' rest' hr
+          refine ⟨?_, by rw [h2]; rfl⟩
+          intro w hw
+          rcases List.mem_cons.mp hw with rfl | hw
+          · exact hc
+          · rw [← hc]; exact h1 w hw
+
+/-- a successful `sorted` of two or more values: they are all of one class, and that class is not `None` -/
+theorem pySorted_ok_class (l : List PyVal) (h2 : 2 ≤ l.length) (h : ∃ out, pySorted l = .ok out) :
+    ∃ c, c ≠ PyClass.none ∧ OneClass c l := by
+  match l, h2, h with
+  | a :: b :: rest, _, ⟨out, ho⟩ =>
+    simp only [pySorted] at ho
+    cases hx : pyLt b a with
+    | error e => rw [hx] at ho; exact absurd ho (by simp)
+    | ok x =>
+      rw [hx] at ho
+      obtain ⟨hba, hbn⟩ := (pyLt_ok_iff b a).mp ⟨x, hx⟩
+      refine ⟨pyClass b, hbn, ?_⟩
+      cases x
+      · simp only at ho
+        cases hr : pyRunAsc b rest with
+        | error e => rw [hr] at ho; exact absurd ho (by simp)
+        | ok p =>
+          obtain ⟨r, rest'⟩ := p
+          rw [hr] at ho
+          obtain ⟨h1, h2⟩ := pyRunAsc_class rest b r rest' hr
+          have hpre : OneClass (pyClass b) (a :: b :: r) := by
+            intro w hw
+            simp only [List.mem_cons] at hw
+            rcases hw with rfl | rfl | hw
+            · exact hba.symm
+            · rfl
+            · exact h1 w hw
+          have := (pyBinSort_class rest' _ (by simp) hpre ⟨out, ho⟩).1
+          intro w hw
+          simp only [List.mem_cons, h2, List.mem_append] at hw
+          rcases hw with rfl | rfl | hw | hw
+          · exact hba.symm
+          · rfl
+          · exact h1 w hw
+          · exact this w hw
+      · simp only at ho
+        cases hr : pyRunDesc b rest with
+        | error e => rw [hr] at ho; exact absurd ho (by simp)
+        | ok p =>
+          obtain ⟨r, rest'⟩ := p
+          rw [hr] at ho
+          obtain ⟨h1, h2⟩ := pyRunDesc_class rest b r rest' hr
+          have hpre : OneClass (pyClass b) (a :: b :: r).reverse := by
+            intro w hw
+            simp only [List.mem_reverse, List.mem_cons] at hw
+            rcases hw with rfl | rfl | hw
+            · exact hba.symm
+            · rfl
+            · exact h1 w hw
+          have := (pyBinSort_class rest' _ (by simp) hpre ⟨out, ho⟩).1
+          intro w hw
+          simp only [List.mem_cons, h2, List.mem_append] at hw
+          rcases hw with rfl | rfl | hw | hw
+          · exact hba.symm
+          · rfl
+          · exact h1 w hw
+          · exact this w hw
+
+/-- exact characterisation: `sorted` of ≥ 2 values succeeds iff all are of one class other than `None`; otherwise it raises `TypeError` -/
+theorem pySorted_ok_iff (l : List PyVal) (h2 : 2 ≤ l.length) :
+    (∃ out, pySorted l = .ok out) ↔ ∃ c, c ≠ PyClass.none ∧ OneClass c l :=
+  ⟨pySorted_ok_class l h2, fun ⟨_, hc, h⟩ => let ⟨out, ho, _⟩ := pySorted_ok_of_oneClass hc l h; ⟨out, ho⟩⟩
+
+/-- on numbers and on strings the realised order `a ≤ b :⇔ not (b < a)` is a total preorder -/
+theorem pyLe_total_preorder (a b d : PyVal) (c : PyClass) (hc : c = .num ∨ c = .str)
+    (ha : pyClass a = c) (hb : pyClass b = c) (hd : pyClass d = c) :
+    (pyLe a b ∨ pyLe b a) ∧ (pyLe a b → pyLe b d → pyLe a d) ∧ pyLe a a := by
+  rcases hc with rfl | rfl
+  · cases a <;> cases b <;> cases d <;> simp [pyClass] at ha hb hd
+    simp only [pyLe, pyLt, Except.ok.injEq, decide_eq_false_iff_not, not_lt]
+    exact ⟨le_total _ _, fun h1 h2 => le_trans h1 h2, le_refl _⟩
+  · cases a <;> cases b <;> cases d <;> simp [pyClass] at ha hb hd
+    simp only [pyLe, pyLt, Except.ok.injEq, decide_eq_false_iff_not, not_lt]
+    exact ⟨le_total _ _, fun h1 h2 => le_trans h1 h2, le_refl _⟩
+
+
+
+/-! ## Part 14: incrementally built tables -/
+
+def CacheOK (t : ITable) : Prop := ∀ g, t.cache = some g → g = runs t.rows
+
+theorem groups_of_cacheOK (t : ITable) (h : CacheOK t) : t.groups = runs t.rows := by
+  unfold ITable.groups
+  cases hc : t.cache with
+  | none => rfl
+  | some g => exact h g hc
+
+theorem step_cacheOK (t : ITable) (h : CacheOK t) (op : IncOp) : CacheOK (t.step true op) := by
+  cases op with
+  | ins b => intro g hg; simp [ITable.step] at hg
+  | look =>
+    intro g hg
+    simp only [ITable.step, Option.some.injEq] at hg
+    rw [← hg]
+    exact groups_of_cacheOK t h
+
+theorem step_rows (clear : Bool) (t : ITable) (op : IncOp) : (t.step clear op).rows = t.rows ++ insertedRows [op] := by
+  cases op <;> simp [ITable.step, insertedRows]
+
+theorem runInc_spec (ops : List IncOp) : ∀ (t : ITable), CacheOK t →
+    (runInc true ops t).rows = t.rows ++ insertedRows ops ∧ (runInc true ops t).groups = runs (t.rows ++ insertedRows ops) := by
+  induction ops with
+  | nil => intro t h; simp [runInc, insertedRows, groups_of_cacheOK t h]
+  | cons op ops ih =>
+    intro t h
+    obtain ⟨h1, h2⟩ := ih (t.step true op) (step_cacheOK t h op)
+    simp only [runInc]
+    rw [h1, h2, step_rows]
+    cases op <;> simp [insertedRows]
+
+theorem incremental_eq_oneshot' (ops : List IncOp) :
+    (runInc true ops ⟨[], none⟩).rows = insertedRows ops ∧
+    (runInc true ops ⟨[], none⟩).groups = (runInc true [] ⟨insertedRows ops, none⟩).groups := by
+  have := runInc_spec ops ⟨[], none⟩ (by intro g hg; simp at hg)
+  simpa [runInc, ITable.groups] using this
+
+theorem stale_cache_counterexample' :
+    (runInc false cexInc ⟨[], none⟩).groups.length = 1 ∧ (runs (insertedRows cexInc)).length = 2 ∧
+    (runInc true cexInc ⟨[], none⟩).groups.length = 2 := by decide +kernel
+
+
 end Coba.C18
